@@ -36,7 +36,7 @@ LEVEL = "model_checking"
 
 ACTIONS = ["AppendArticle", "AppendInChapter", "AppendChapter", "RemoveItem", "SwapItems", "ChangeRevision",
            "ChangeTitle", "WrapInChapter", "SetOptional", "ChangeWiki", "AppendCustom", "EditWikiConf", "EditLicense",
-           "EditSource", "PermuteKeys", "ChangeWhitespace", "ToggleAsciiEscape", "Reserialise", "SpellDefaults"]
+           "EditSource", "Tweak", "PermuteKeys", "ChangeWhitespace", "ToggleAsciiEscape", "Reserialise", "SpellDefaults"]
 ALL_SEEDS = ["empty", "one", "two", "nested", "twochap", "kinds"]
 QUICK_SEEDS = ["empty", "two", "nested", "kinds"]
 WIKI_COMPONENTS = ["scheme", "user", "host", "port", "path", "seg", "ext", "login"]
@@ -53,6 +53,7 @@ CONSTANTS
   Emit = %(emit)s
   EmitPrefix = "@#"
   OneComponent = %(onecomp)s
+  TweakDepth = %(tweak)d
   IdentMode = "%(mode)s"
 INVARIANTS TypeOK EmitSeed
 ACTION_CONSTRAINTS EditLaw EmitEdge
@@ -61,10 +62,10 @@ CHECK_DEADLOCK FALSE
 """
 
 
-def cfg(depth, seeds=ALL_SEEDS, titles=("t1", "t2"), maxart=4, maxchap=2, emit=True, mode="content", onecomp=True):
+def cfg(depth, seeds=ALL_SEEDS, titles=("t1", "t2"), maxart=4, maxchap=2, emit=True, mode="content", onecomp=True, tweak=2):
     q = lambda xs: ", ".join('"%s"' % x for x in xs)        # noqa: E731
     return CFG % dict(depth=depth, seeds=q(seeds), titles=q(titles), maxart=maxart, maxchap=maxchap,
-                      emit=str(emit).upper(), mode=mode, onecomp=str(onecomp).upper())
+                      emit=str(emit).upper(), mode=mode, onecomp=str(onecomp).upper(), tweak=tweak)
 
 
 # ----------------------------------------------------------------------------- concretisation
@@ -94,18 +95,101 @@ def make_cz(seed):
           "o1": rng.choice(OPT_PALETTE),
           # components of the base URL
           "http": "http", "https": "https", "usr": rng.choice(["bot", "u:pw"]),
-          "h1": rng.choice(["en.wikipedia.org", "wiki.example.org"]), "h2": rng.choice(["de.wikipedia.org", "wiki.example.net"]),
-          "p1": "8080", "p2": rng.choice(["8081", "80", "443"]), "pa": "w", "pb": rng.choice(["wiki", "W", "w2"]),
-          "sg": rng.choice(["mobile", "w"]),
-          "e1": rng.choice([".php", ".php5"]), "l1": "user:secret:domain",
+          # (mixed case and a non-ASCII letter, so that case / NFD re-spellings of the URL are effective)
+          "h1": rng.choice(["en.Wikipedia.org", "Wiki.Example.org"]), "h2": rng.choice(["de.Wikipedia.org", "Wiki.Example.net"]),
+          "p1": "8080", "p2": rng.choice(["8081", "80", "443"]), "pa": rng.choice(["w", "Wíki"]), "pb": rng.choice(["wiki", "W2", "w2"]),
+          "sg": rng.choice(["Móbile", "wé"]),
+          "e1": rng.choice([".php", ".Php5"]), "l1": "Usér:Secret:domain",
           # the other kinds of objects
-          "w1": "enwiki", "w2": rng.choice(["dewiki", "ENWIKI"]), "b1": "https://en.wikipedia.org/w/", "b2": "https://en.wikipedia.org:8080/w/",
+          "w1": "enwiki", "w2": rng.choice(["dewiki", "ENWIKI"]), "b1": "https://en.Wikipedia.org/wíki/", "b2": "https://en.Wikipedia.org:8080/wíki/",
           "lt1": "GNU Free Documentation License – " + ts[4][:6], "lw1": "== License ==\n" + ts[4], "lw2": "== License ==\n" + ts[5],
           "sn1": "Wikipédia", "la1": "en", "la2": "pt-br", "i1": "wikt", "cc1": "''custom'' " + ts[5]}
     inv = {v: k for k, v in cz.items() if k not in ("http", "https", "pa", "sg")}
     if len(inv) != len(cz) - 4:
         raise ValueError("concretisation is not injective")
     return cz, inv
+
+
+MB_TWEAK_FIELDS = ("title", "subtitle", "editor", "item_title", "displaytitle", "wikiconf_baseurl", "license_wikitext", "source_name")
+
+
+def tweak_str(s, kind, pick):
+    """One nearest-neighbour re-spelling of s, or None when this kind has no effect on s."""
+    import unicodedata
+    if kind == "lead":
+        return " " + s
+    if kind == "trail":
+        return s + " "
+    if kind == "slash":
+        return s[:-1] if s.endswith("/") else s + "/"
+    if kind == "case":
+        idx = [i for i, c in enumerate(s) if len(c.swapcase()) == 1 and c.swapcase() != c and c.swapcase().swapcase() == c]
+        if not idx:
+            return None
+        i = idx[pick % len(idx)]
+        return s[:i] + s[i].swapcase() + s[i + 1:]
+    if kind == "nfd":
+        for i, c in enumerate(s):
+            d = unicodedata.normalize("NFD", c)
+            if d != c:
+                return s[:i] + d + s[i + 1:]
+        n = unicodedata.normalize("NFC", s)
+        return n if n != s else None
+    raise ValueError(kind)
+
+
+def tweak_of(st, cz, seed=0):
+    """(field, abstract name or None, base string, tweaked string) of the state's nearest-neighbour
+    re-spelling; None when the state has none; tweaked string None when the tweak has no effect."""
+    tw = st.get("tw") or {"f": "none"}
+    f = tw["f"]
+    if f == "none":
+        return None
+    mb, w = st["mb"], st["wiki"]
+    name = None
+    if f == "base_url":
+        base = base_url(w, cz)
+    elif f == "script_extension":
+        base = cz[w["ext"]]
+    elif f == "login_credentials":
+        base = cz[w["login"]]
+    else:
+        name = {"title": lambda: mb["title"], "subtitle": lambda: mb["subtitle"], "editor": lambda: mb["editor"],
+                "item_title": lambda: mb["items"][0]["title"], "displaytitle": lambda: mb["items"][0]["dt"],
+                "wikiconf_baseurl": lambda: mb["wikis"][0]["baseurl"], "license_wikitext": lambda: mb["licenses"][0]["wikitext"],
+                "source_name": lambda: mb["source"][0]["name"]}[f]()
+        base = cz[name]
+    return f, name, base, tweak_str(base, tw["k"], seed + len(base))
+
+
+def apply_tweak_client(d, f, s):
+    if f in ("title", "subtitle", "editor"):
+        d[f] = s
+    elif f == "item_title":
+        d["items"][0]["title"] = s
+    elif f == "displaytitle":
+        d["items"][0]["displaytitle"] = s
+    elif f == "wikiconf_baseurl":
+        d["wikis"][0]["baseurl"] = s
+    elif f == "license_wikitext":
+        d["licenses"][0]["wikitext"] = s
+    elif f == "source_name":
+        d["source"]["name"] = s
+
+
+def apply_tweak_api(c, f, s):
+    if f in ("title", "subtitle", "editor"):
+        setattr(c, f, s)
+    elif f == "item_title":
+        c.items[0].title = s
+    elif f == "displaytitle":
+        c.items[0].displaytitle = s
+    elif f == "wikiconf_baseurl":
+        c.wikis[0].baseurl = s
+    elif f == "license_wikitext":
+        c.licenses[0].wikitext = s
+    elif f == "source_name":
+        c.source.name = s
 
 
 def C(cz, v):
@@ -175,6 +259,9 @@ def client_obj(st, cz):
         if src["iw"] != "none":
             sd["interwikimap"] = [{"type": "interwiki", "prefix": cz[src["iw"]], "local": True}]
         d["source"] = sd
+    t = tweak_of(st, cz)
+    if t and t[0] in MB_TWEAK_FIELDS:
+        apply_tweak_client(d, t[0], t[3])
     return d
 
 
@@ -221,9 +308,12 @@ def request_for(st, cz, M):
         text = M["myjson"].loads(text).dumps()
     req = {"metabook": text, "base_url": base_url(st["wiki"], cz), "writer": "rl"}
     if st["wiki"]["ext"] != "none":
-        req["script_extension"] = cz[st["wiki"]["ext"]]
+        req["script_extension"] = C(cz, st["wiki"]["ext"])
     if st["wiki"]["login"] != "none":
-        req["login_credentials"] = cz[st["wiki"]["login"]]
+        req["login_credentials"] = C(cz, st["wiki"]["login"])
+    t = tweak_of(st, cz)
+    if t and t[0] in ("base_url", "script_extension", "login_credentials"):
+        req[t[0]] = t[3]
     return req
 
 
@@ -262,6 +352,9 @@ def build_api(st, cz, M):
         if src["iw"] != "none":
             so.interwikimap = [mbm.make_interwiki({"prefix": cz[src["iw"]], "local": True})]
         c.source = so
+    t = tweak_of(st, cz)
+    if t and t[0] in MB_TWEAK_FIELDS:
+        apply_tweak_api(c, t[0], t[3])
     return c
 
 
@@ -354,13 +447,15 @@ def same_classes(x, y, M, path="obj"):
     return None
 
 
-def check_wikis(c, mb, cz, who):
-    """get_wiki(ident=...) / get_wiki(baseurl=...) find every WikiConf the content lists."""
+def check_wikis(c, mb, cz, who, b0=None):
+    """get_wiki(ident=...) / get_wiki(baseurl=...) find every WikiConf the content lists.
+    b0: the (re-spelled) baseurl of the first WikiConf when the state's tweak targets it."""
     out = []
+    conc = [(b0 if (b0 is not None and i == 0) else cz[w["baseurl"]]) for i, w in enumerate(mb["wikis"])]
     for i, w in enumerate(mb["wikis"]):
         try:
             got = c.get_wiki(ident=cz[w["ident"]])
-            got_b = c.get_wiki(baseurl=cz[w["baseurl"]])
+            got_b = c.get_wiki(baseurl=conc[i])
         except Exception as e:                                         # noqa: BLE001
             k, what = _exc_problem(e)
             out.append((k if k.startswith(HARNESS) else "get_wiki: %s metabook raises %s" % (who, type(e).__name__), what))
@@ -368,9 +463,9 @@ def check_wikis(c, mb, cz, who):
         wikis = c.wikis if isinstance(getattr(c, "wikis", None), list) else []
         if i >= len(wikis) or got is not wikis[i]:
             out.append(("get_wiki: %s metabook does not return its WikiConf by ident" % who, "got %r" % (got,)))
-        elif getattr(got, "baseurl", None) != cz[w["baseurl"]]:
+        elif getattr(got, "baseurl", None) != conc[i]:
             out.append(("get_wiki: %s WikiConf has another baseurl" % who, "got %r" % (got,)))
-        first = [j for j, v in enumerate(mb["wikis"]) if v["baseurl"] == w["baseurl"]][0]
+        first = conc.index(conc[i])
         if first >= len(wikis) or got_b is not wikis[first]:
             out.append(("get_wiki: %s metabook does not return its WikiConf by baseurl" % who, "got %r" % (got_b,)))
     return out
@@ -473,6 +568,7 @@ def check_content(st, cz, inv, M):
     problems = []
     mbm, mj = M["metabook"], M["myjson"]
     want = st["mb"]
+    inv, b0 = tweak_view(st, cz, inv)
 
     def bad(key, what):
         problems.append((key, what))
@@ -485,7 +581,7 @@ def check_content(st, cz, inv, M):
                 "built %r" % (p,))
         if [inv.get(a.title) for a in x.get_articles()] != flat_titles(want):
             bad("construct: get_articles() order", "got %r" % ([a.title for a in x.get_articles()],))
-        for k, w in check_wikis(x, want, cz, "API-built"):
+        for k, w in check_wikis(x, want, cz, "API-built", b0):
             bad(k, w)
         pub_x = public(x, M)
         # ---- round trip and fixed point, for each serialiser the code offers
@@ -506,7 +602,7 @@ def check_content(st, cz, inv, M):
             if type(y) is mbm.Collection:
                 if [inv.get(a.title) for a in y.get_articles()] != flat_titles(want):
                     bad("roundtrip %s: get_articles() order" % name, "got %r" % ([a.title for a in y.get_articles()],))
-                for k, w in check_wikis(y, want, cz, "reloaded (%s)" % name):
+                for k, w in check_wikis(y, want, cz, "reloaded (%s)" % name, b0):
                     bad(k, w)
             if name == "Collection.dumps" and type(y) is not mbm.Collection:
                 continue                      # reported above: the reloaded object is no Collection
@@ -545,6 +641,7 @@ def check_request(st, cz, inv, M, cks):
     problems = []
     mbm, mj = M["metabook"], M["myjson"]
     want = st["mb"]
+    inv, b0 = tweak_view(st, cz, inv)
 
     def bad(key, what):
         problems.append((key, what))
@@ -556,7 +653,7 @@ def check_request(st, cz, inv, M, cks):
         if p != want:
             bad("load-client-text: differs at %s" % first_diff(p, want), "loaded %r from %s" % (p, req["metabook"][:300]))
         else:
-            for k, w in check_wikis(z, want, cz, "loaded"):
+            for k, w in check_wikis(z, want, cz, "loaded", b0):
                 bad(k, w)
             if cks is not None and mbm.calc_checksum(z) != cks:
                 bad("checksum: client text and API-built metabook of equal content have different checksums",
@@ -575,10 +672,25 @@ def check_request(st, cz, inv, M, cks):
         return None, problems
 
 
+def tweak_view(st, cz, inv):
+    """The inverse map extended by the state's re-spelled string (it still denotes the same abstract
+    value: the re-spelling is carried by st["tw"]), and the first WikiConf's baseurl if re-spelled."""
+    t = tweak_of(st, cz)
+    if not t or t[0] not in MB_TWEAK_FIELDS:
+        return inv, None
+    inv2 = dict(inv)
+    inv2[t[3]] = t[1]
+    return inv2, (t[3] if t[0] == "wikiconf_baseurl" else None)
+
+
 def check_state(st, cz, inv, M, cache=None):
     """All per-state obligations.  Returns (ids, problems); problems = [(key, what)].  The
-    content-only part is computed once per distinct metabook (cache)."""
-    k = json.dumps(st["mb"], sort_keys=True)
+    content-only part is computed once per distinct metabook (cache).  (None, []) when the state's
+    re-spelling has no effect on its string (e.g. NFD of pure ASCII): not a test case."""
+    t = tweak_of(st, cz)
+    if t and (t[3] is None or t[3] == t[2]):
+        return None, []
+    k = json.dumps([st["mb"], st.get("tw") if (t and t[0] in MB_TWEAK_FIELDS) else None], sort_keys=True)
     hit = cache.get(k) if cache is not None else None
     if hit is None:
         cks, problems = check_content(st, cz, inv, M)
@@ -591,6 +703,7 @@ def check_state(st, cz, inv, M, cache=None):
 
 
 G = {}
+EFFECTIVE_TWEAKS = set()  # (field, kind) of nearest-neighbour edges whose both ends were executed
 FAIL_LIMIT = 400          # failing states after which the remaining states are skipped (reported)
 
 
@@ -649,7 +762,7 @@ def label(a):
 
 
 def ident_of(st):
-    return json.dumps([st["mb"], st["wiki"]], sort_keys=True)
+    return json.dumps([st["mb"], st["wiki"], st.get("tw")], sort_keys=True)
 
 
 def execute(ctx, states, edges, tag):
@@ -706,12 +819,15 @@ def execute(ctx, states, edges, tag):
         ctx.violation(key, "%s (%d states; first: %s)" % (what, cnt, json.dumps(states[i])[:400]),
                       {"kind": "state", "state": states[i], "seed": ctx.seed})
     # ---- edges
-    stats = {"rep_edges": 0, "content_edges": 0, "edges_skipped": 0}
+    stats = {"rep_edges": 0, "content_edges": 0, "edges_skipped": 0, "tweak_edges": 0}
     efound = {}
     for (a, n, s, d) in edges:
         if ids[s] is None or ids[d] is None:
             stats["edges_skipped"] += 1
             continue
+        if a[1] == "Tweak":
+            stats["tweak_edges"] += 1
+            EFFECTIVE_TWEAKS.add((a[2], a[3]))
         for fi, fn in enumerate(("nserve", "serve")):
             if a[0] == "rep":
                 if ids[s][fi] != ids[d][fi]:
@@ -757,7 +873,7 @@ def run(ctx):
     quick = ctx.tier == "quick"
     plans = [("bfs", dict(depth=3, seeds=QUICK_SEEDS))] if quick else [
         ("bfs", dict(depth=3, seeds=ALL_SEEDS, titles=("t1", "t2", "t3"), maxart=4)),
-        ("sim", dict(depth=10, titles=("t1", "t2", "t3", "t4"), maxart=6, maxchap=3, onecomp=False)),
+        ("sim", dict(depth=10, titles=("t1", "t2", "t3", "t4"), maxart=6, maxchap=3, onecomp=False, tweak=0)),
     ]
     wiki_edges = set()
     tot_states = tot_trans = 0
@@ -810,7 +926,15 @@ def run(ctx):
     need = {(c, "changed") for c in ("scheme", "host", "port", "path")} | {(c, "added") for c in ("user", "port", "seg", "ext", "login")}
     if need - wiki_edges:
         ctx.machinery("no transition for these single-component changes of the wiki coordinates: %s" % sorted(need - wiki_edges))
+    # every string input of the id must have had its nearest-neighbour re-spellings executed
+    kinds4 = ("case", "lead", "trail", "slash")
+    need_tw = ({("base_url", k) for k in kinds4 + ("nfd",)} | {("script_extension", k) for k in kinds4}
+               | {("login_credentials", k) for k in kinds4 + ("nfd",)}
+               | {(f, k) for f in ("title", "subtitle", "editor", "item_title", "displaytitle") for k in kinds4})
+    if need_tw - EFFECTIVE_TWEAKS and not ctx.violations:
+        ctx.machinery("no effective nearest-neighbour re-spelling was executed for: %s" % sorted(need_tw - EFFECTIVE_TWEAKS))
     for mode, msg in (("no-revision", "a content edit left the identity unchanged"),
+                      ("case-blind", "a content edit left the identity unchanged"),
                       ("host-only", "a content edit left the identity unchanged"),
                       ("with-keyorder", "a representation edit changed the identity")):
         r = tlc.run(ctx, "Metabook", cfg(2, emit=False, mode=mode), name="Metabook_nv", workers=1, timeout=300)
